@@ -85,7 +85,7 @@ func c08HistItems() []c08HistItem {
 	add("STREAM(130-bytes)", "0b"+"08"+"4082"+fmt.Sprintf("%x", c08Data(130, 0x41)), one) // pooled frame, FIN
 	add("STREAM(140-bytes)", "0c"+"08"+"07"+fmt.Sprintf("%x", c08Data(140, 0x17)), one)   // pooled frame, offset, no length, no FIN
 	add("DATAGRAM", "31"+"02"+"aabb", zer, one)
-	add("RESET_STREAM_AT", "24"+"04"+"07"+"0a"+"05", one)
+	add("RESET_STREAM_AT", "24"+"04"+"07"+"0a"+"05", zer, one)
 	add("ACK_FREQUENCY", "40af"+"01"+"02"+"19"+"03", one)
 	add("IMMEDIATE_ACK", "1f", one)
 	add("CONNECTION_CLOSE", "1c"+"0a"+"02"+"03"+"616263", ini, one)
